@@ -13,18 +13,19 @@ import (
 // a deviation bound (iterative context bounding) and an optional memo keyed
 // by the happens-before hash of the execution so far.
 type Explorer struct {
-	Name        string
-	Bound       int
-	Delay       bool // delay-bounded policy instead of free switches at blocking points
-	UseMemo     bool
-	MaxSteps    uint64
-	Horizon     int64 // virtual ns
-	EarlyWindow int64 // a timer may be fired early (deviation) only if due within this much virtual time
-	Trace       bool
-	Deadline    time.Time // wall-clock budget: exceeding it stops the search, exhaustive=false
-	MaxExec     int64
-	Shard       int // this process explores subtrees with hash(depth-2 prefix) % Shards == Shard
-	Shards      int
+	Name           string
+	Bound          int
+	Delay          bool // delay-bounded policy instead of free switches at blocking points
+	UseMemo        bool
+	MaxSteps       uint64
+	Horizon        int64 // virtual ns
+	EarlyWindow    int64 // a timer may be fired early (deviation) only if due within this much virtual time
+	Trace          bool
+	SelectFairness int       // a ready select case is passed over at most this many times in a row (default 3)
+	Deadline       time.Time // wall-clock budget: exceeding it stops the search, exhaustive=false
+	MaxExec        int64
+	Shard          int // this process explores subtrees with hash(depth-2 prefix) % Shards == Shard
+	Shards         int
 
 	memo map[key]int32
 
@@ -149,6 +150,9 @@ func prefixShard(p []int, n int) int {
 func (e *Explorer) Run() {
 	if e.MaxSteps == 0 {
 		e.MaxSteps = 20000
+	}
+	if e.SelectFairness == 0 {
+		e.SelectFairness = 3
 	}
 	if e.UseMemo {
 		e.memo = map[key]int32{}
@@ -331,6 +335,9 @@ func (e *Explorer) Replay(choices []int) (*Outcome, []TraceEntry) {
 		e.MaxSteps = 20000
 	}
 	e.memo = nil
+	if e.SelectFairness == 0 {
+		e.SelectFairness = 3
+	}
 	x := e.runOnce(choices, true)
 	return &x.out, lastEntries
 }
